@@ -17,11 +17,11 @@
 package format
 
 import (
-	"go/token"
 	"log"
 	"reflect"
 
 	"github.com/goplus/xgo/ast"
+	"github.com/goplus/xgo/token"
 )
 
 // -----------------------------------------------------------------------------
@@ -107,8 +107,11 @@ func formatExpr(ctx *formatCtx, expr ast.Expr, ref *ast.Expr) {
 		formatExpr(ctx, v.Key, &v.Key)
 		formatExpr(ctx, v.Value, &v.Value)
 	case *ast.FuncLit:
+		old := ctx.enterBlock()
 		formatFuncType(ctx, v.Type)
+		ctx.insertFields(v.Type.Params, v.Type.Results)
 		formatBlockStmt(ctx, v.Body)
+		ctx.leaveBlock(old)
 	case *ast.TypeAssertExpr:
 		formatExpr(ctx, v.X, &v.X)
 		formatType(ctx, v.Type, &v.Type)
@@ -270,6 +273,9 @@ func formatExprStmt(ctx *formatCtx, v *ast.ExprStmt) {
 func formatAssignStmt(ctx *formatCtx, v *ast.AssignStmt) {
 	formatExprs(ctx, v.Lhs)
 	formatExprs(ctx, v.Rhs)
+	if v.Tok == token.DEFINE {
+		ctx.insertIdents(v.Lhs...)
+	}
 }
 
 func formatSwitchStmt(ctx *formatCtx, v *ast.SwitchStmt) {
@@ -307,6 +313,9 @@ func formatRangeStmt(ctx *formatCtx, v *ast.RangeStmt) {
 	formatExpr(ctx, v.Key, &v.Key)
 	formatExpr(ctx, v.Value, &v.Value)
 	formatExpr(ctx, v.X, &v.X)
+	if v.Tok == token.DEFINE {
+		ctx.insertIdents(v.Key, v.Value)
+	}
 	formatBlockStmt(ctx, v.Body)
 }
 
